@@ -77,6 +77,18 @@ func drawC08(t *rapid.T) caseC08 {
 	if !closed {
 		c.Steps = append(c.Steps, stepW2{Op: "close"})
 	}
+	if c.Cfg.EffDict() <= 1<<20 && rapid.IntRange(0, 14).Draw(t, "edge") == 0 {
+		// the only repeat lies at distance DictCap-3..DictCap+3; one Write or
+		// a Flush before the repeat
+		r := gen.EdgeRecipe(t, c.Cfg.EffDict())
+		first := r[0]
+		if rapid.Bool().Draw(t, "edgesplit") {
+			second := r[1]
+			c.Steps = []stepW2{{Op: "write", Seg: &first}, {Op: "flush"}, {Op: "write", Seg: &second, More: r[2:]}, {Op: "close"}}
+		} else {
+			c.Steps = []stepW2{{Op: "write", Seg: &first, More: r[1:]}, {Op: "close"}}
+		}
+	}
 	if c.Cfg.Matcher == 0 && rapid.IntRange(0, 9).Draw(t, "bigwrite") == 0 {
 		// ONE Write call that crosses both chunk limits: poorly compressible
 		// data (a chunk closed by the 64 KiB compressed limit, leaving bytes
